@@ -170,7 +170,9 @@ class CallMixin:
 
     def opq_call(self, recv, name, args, kw, node):
         tag = recv.x or 'any'
-        spec = self.opq_models()[tag][name]
+        spec = self.opq_models().get(tag, {}).get(name)
+        if spec is None:
+            raise Unsupported(f'operation {name} on opaque {tag} (not in its model)')
         head, _, res = spec.partition(':')
         argt = [recv.t]
         for a in list(args) + [kw[k] for k in sorted(kw)]:
@@ -539,6 +541,9 @@ class CallMixin:
             if tn == 'str':
                 return z3.BoolVal('str' in bases.split() or 'ValidatorEnum' in bases)
             return z3.BoolVal(False)
+        if tn == 'type' and k == 'func' and getattr(v.t, 'builtin', None) in ('int', 'str', 'float', 'bool', 'bytes', 'bytearray', 'list', 'dict', 'tuple',
+                                                                              'NoneType', 'datetime', 'type'):
+            return z3.BoolVal(True)         # the builtin types are instances of `type`
         kinds = {'int': 'int', 'bool': 'bool', 'none': 'none', 'bytes': 'bytes', 'str': 'str', 'list': 'list', 'tuple': 'tuple', 'seq': 'list',
                  'dict': 'dict', 'cls': 'cls', 'func': 'func'}
         vk = kinds.get(k)
@@ -701,7 +706,11 @@ class CallMixin:
         allargs = ([f.bound] if f.bound is not None else []) + list(args)
         key = self.contract_key(f)
         c = self.contracts.get(key)
-        if c is not None and not c.get('inline') and not c.get('inline_in_callers') and key not in (self.cur_contract or {}).get('inline_callees', []):
+        cc_ = self.cur_contract or {}
+        # scenario contracts may ask for the REAL bodies of all callees (`inline_all`), keeping only the listed summaries (`keep_modular`)
+        if c is not None and cc_.get('inline_all') and key not in cc_.get('keep_modular', []):
+            c = None
+        if c is not None and not c.get('inline') and not c.get('inline_in_callers') and key not in cc_.get('inline_callees', []):
             return self.modular_call(key, c, f, allargs, kw, node)
         if len(self.st.frames) > 60:
             raise Unsupported(f'inlining depth exceeded at {key} (recursive function needs a contract)')
